@@ -272,6 +272,28 @@ def load_known():
     return json.load(open(p)).get('findings', [])
 
 
+# --------------------------------------------------------------------------- translation validation (cached per source hash)
+
+def translation_validation(info):
+    """native differential run of the extracted C against the real library (harness/tv_gen.py); cached by the
+       content hash of the sources, the extractor and the byte-stream model"""
+    from harness import tv_gen
+    d = os.path.join(BUILD, 'tv'); os.makedirs(d, exist_ok=True)
+    h = src_hash() + hashlib.sha256(open(os.path.join(VERIF, 'harness', 'tv_gen.py'), 'rb').read()).hexdigest()
+    cache = os.path.join(d, 'result.json')
+    if os.path.exists(cache):
+        try:
+            r = json.load(open(cache))
+            if r.get('hash') == h: return r
+        except ValueError:
+            pass
+    t0 = time.time()
+    r = tv_gen.run(info, seed(), 4)
+    r['hash'] = h; r['seconds'] = round(time.time() - t0, 1)
+    json.dump(r, open(cache, 'w'), indent=1)
+    return r
+
+
 # --------------------------------------------------------------------------- evidence / reporting
 
 class Report:
@@ -319,6 +341,18 @@ class Report:
         json.dump(data, open(path, 'w'), indent=1)
         return path
 
+    def validate_translation(self, info):
+        """keeps the verified text demonstrably the code that runs: extracted C vs real library, natively"""
+        try:
+            r = translation_validation(info)
+        except Inconclusive as e:
+            self.inconclusive.append('translation validation could not run: %s' % e); return
+        self.notes['translation_validation'] = dict(programs=r['programs'], disagreements=len(r['disagreements']),
+                                                     seconds=r.get('seconds'), samples=r['samples'][:2],
+                                                     what='every reference object image decoded and re-encoded, and pseudo-random objects of every class encoded, by the natively compiled extracted C and by the real library: outputs compared line by line')
+        for d_ in r['disagreements'][:5]:
+            self.inconclusive.append('translation validation: extracted C and real library disagree on %s (extractor/model defect, not a property violation)' % d_['case'])
+
     def finish(self, level, checker_cmd, trusted_base, samples=None, extra=None, explanation=None):
         os.makedirs(EVIDENCE, exist_ok=True)
         kinds = {'contract_clauses': 0, 'language_safety': 0, 'instrumentation_internal': 0}
@@ -343,6 +377,7 @@ class Report:
                    known_findings=self.known,
                    jobs=self.jobs if len(self.jobs) <= 400 else self.jobs[:400])
         if explanation: cov['explanation'] = explanation
+        if self.notes: cov.update(self.notes)
         if extra: cov.update(extra)
         ev = dict(property_id=self.prop, tier=self.tier, seed=self.seed, level=level, coverage=cov,
                   assumptions=self.assumptions, wall_s=round(time.time() - self.t0, 1),
